@@ -438,7 +438,12 @@ def generate(prop, rng, tier):
                 c['op'] = 'noreconcile'
                 ops.append(c)
             elif r < 0.9:
-                ops.append(_gen_call(rng, wp, pool))
+                c = _gen_call(rng, wp, pool)
+                if rng.random() < 0.3:
+                    # reconciliation switched off on the caller's raw trains: the result is unspecified,
+                    # but the trains must come back untouched all the same
+                    c['kw']['Reconcile'] = False
+                ops.append(c)
             else:
                 k = rng.choice(['merge', 'psth', 'copy', 'ctor', 'nonempty', 'len_getitem'])
                 ops.append({'op': 'misc', 'what': k, 'sel': gen.gen_sel(rng, len(pool), 1, len(pool)),
